@@ -116,10 +116,15 @@ def script_checks(rep, rng, desc, trees, tmp, n):
                     m = serial.random_phys_model(rng, max_cells=4, graph=False)
                 m.space["bc"] = (False, False, False)
         t = rng.choice(trees)
-        times = {"dt": Fr(1, 64), "ts": [Fr(0), Fr(1, 16), Fr(1, 4)], "interval": Fr(1, 8), "seed": rng.randint(0, 99999),
-                 "policy": rng.choice(["on_t_sample", "on_interval", "on_iteration"])}
-        if rng.random() < 0.5:
+        times = {"dt": Fr(1, 64), "ts": [Fr(0), Fr(1, 16), Fr(1, 4)], "interval": Fr(1, 8),
+                 # boundary values that are valid but "falsy" (0) or at the end of the documented range must survive like any other
+                 "seed": rng.choice([0, 0, 1, 2 ** 31, 2 ** 32 - 1]) if rng.random() < 0.4 else rng.randint(0, 99999),
+                 "policy": rng.choice(["on_t_sample", "on_interval", "on_iteration", "no_sampling"])}
+        r = rng.random()
+        if r < 0.4:
             times["tmax"] = Fr(3, 16)
+        elif r < 0.5:
+            times["tmax"] = Fr(0)
         d = desc.script(m, t["decl"], t["eff"], times)
         tag = {"decl": t["decl"], "script": d}
         rep.case(["script", json.dumps(d, sort_keys=True, default=str)])
